@@ -21,6 +21,7 @@ import (
 	"github.com/DataDog/datadog-traceroute/traceroute"
 
 	"verif/refcodec"
+	"verif/shim/vctx"
 	"verif/shim/vrand"
 	"verif/shim/vtime"
 	"verif/simnet"
@@ -59,6 +60,7 @@ type RTScn struct {
 	RDNS      map[string]string `json:"rdns,omitempty"`    // address -> "name" | "!error" | "" (empty list)
 	Bound     int             `json:"bound"`
 	UseListenerPort bool      `json:"use_listener_port,omitempty"`
+	CancelAtMs int            `json:"cancel_at_ms,omitempty"` // the caller's context is cancelled at this virtual instant
 }
 
 type stubFetcher struct {
@@ -158,8 +160,17 @@ func privateRouter(v6 bool, t int) netip.Addr {
 	return netip.AddrFrom4([4]byte{10, 20, 30, byte(t)})
 }
 
+type cnt2 struct{ p *int }
+
+func (c cnt2) Ready() bool { return *c.p >= 2 }
+
+// RunRT2 executes the request twice, concurrently.
+func RunRT2(cfg vsched.Config, sc *RTScn) *RTResult { return runRT(cfg, sc, true) }
+
 // RunRT executes the request under the scheduler.
-func RunRT(cfg vsched.Config, sc *RTScn) *RTResult {
+func RunRT(cfg vsched.Config, sc *RTScn) *RTResult { return runRT(cfg, sc, false) }
+
+func runRT(cfg vsched.Config, sc *RTScn, twice bool) *RTResult {
 	out := &RTResult{RDNSCalls: map[string]int{}}
 	target := sc.targetAddr()
 	// world: one Scn per run the request may start (queries, e2e probes, prefer_sack fallback)
@@ -172,7 +183,11 @@ func RunRT(cfg vsched.Config, sc *RTScn) *RTResult {
 	v := sc.variantOf(target, sc.Method)
 	flow := 0
 	if v != "" && target.IsValid() {
-		for q := 0; q < sc.Queries; q++ {
+		nq := sc.Queries
+		if twice {
+			nq *= 2
+		}
+		for q := 0; q < nq; q++ {
 			scns = append(scns, mk(v, flow))
 			flow++
 			if sc.Method == "prefer_sack" {
@@ -184,7 +199,11 @@ func RunRT(cfg vsched.Config, sc *RTScn) *RTResult {
 		if ev == "sack" {
 			ev = "syn"
 		}
-		for e := 0; e < sc.E2e; e++ {
+		ne := sc.E2e
+		if twice {
+			ne *= 2
+		}
+		for e := 0; e < ne; e++ {
 			scns = append(scns, mk(ev, flow))
 			flow++
 		}
@@ -220,6 +239,8 @@ func RunRT(cfg vsched.Config, sc *RTScn) *RTResult {
 			spec.SackPermitted = false
 		case "timestamps":
 			spec.Timestamps = true
+		case "duplicate-synack":
+			spec.LateCopyMs = 15
 		case "no-handshake":
 			spec.Enabled = false
 		case "closed":
@@ -341,6 +362,23 @@ func RunRT(cfg vsched.Config, sc *RTScn) *RTResult {
 			} else {
 				out.Err = fmt.Errorf("http %d: %s", rec.Code, strings.TrimSpace(rec.Body.String()))
 			}
+		} else if twice {
+			// two overlapping requests (as the HTTP server serves them), same parameters
+			n2 := 0
+			for k := 0; k < 2; k++ {
+				vsched.Go(func() {
+					res, err := tr.RunTraceroute(context.Background(), params)
+					if k == 0 {
+						out.Res, out.Err = res, err
+					}
+					n2++
+				})
+			}
+			vsched.Block(cnt2{&n2}, -1, "join requests")
+		} else if sc.CancelAtMs > 0 {
+			ctx, cancel := vctx.WithCancelAt(context.Background(), int64(sc.CancelAtMs)*1_000_000)
+			out.Res, out.Err = tr.RunTraceroute(ctx, params)
+			cancel()
 		} else {
 			out.Res, out.Err = tr.RunTraceroute(context.Background(), params)
 		}
